@@ -326,6 +326,13 @@ func runC17(c *Ctx) {
 		c.Ob("C17-R5", "reachable-panic list computed", "", len(names) > 0, fmt.Sprintf("%d functions", len(names)))
 	})
 	c.Min("C17-R5", 5)
+
+	c.Rule("C17-R6", "no input can wedge a handler by leaking a lock: every mutex acquired in the message-layer packages is released on every non-panic exit", func() {
+		f, o := c.LockPairingRule("C17-R6", []string{"p2p", "p2p/discover", "p2p/netutil", "p2p/nat", "aqua", "aqua/fetcher", "aqua/downloader", "rpc", "node"}, nil, map[string]string{})
+		c.Extra["lock_pairing_functions"] = f
+		c.Extra["lock_pairing_operations"] = o
+	})
+	c.Min("C17-R6", 20)
 }
 
 var c17FrozenPanics = map[string]string{
